@@ -261,10 +261,19 @@ def evaluate(prop, op, inputs, res, stream_name, keep_samples=2):
             res.holds_fail.append((op, inp, o, model_obs, stream_name))
         if not holds_model:
             res.model_fail.append((op, inp, o, model_obs, stream_name))
-        if model_obs == Exc('OutOfModel') or contains_oom(model_obs):
+        if contains_oom(model_obs):
             res.out_of_model += 1
-        elif model_obs != o:
+        if not agree_modulo_oom(model_obs, o):
             res.disagree.append((op, inp, o, model_obs, stream_name))
+
+
+def agree_modulo_oom(m, o):
+    """model observation vs implementation observation; a model node `OutOfModel` agrees with anything"""
+    if isinstance(m, Exc) and m.name == 'OutOfModel':
+        return True
+    if isinstance(m, list) and isinstance(o, list):
+        return len(m) == len(o) and all(agree_modulo_oom(a, b) for a, b in zip(m, o))
+    return type(m) is type(o) and m == o
 
 
 def contains_oom(v):
